@@ -216,7 +216,6 @@ fn case(rng: &mut Rng, pools: &mut Pools, rep: &mut Report, case_no: u64) {
 /// thread-local systems exactly once.
 #[cfg(feature = "parallel")]
 fn case_async(rng: &mut Rng, pools: &mut Pools, rep: &mut Report, case_no: u64) {
-    use crate::res::full_world;
     use crate::sys::instantiate;
     let profile = *rng.pick(&[Profile::Tiny, Profile::Dense, Profile::Mixed, Profile::Batchy, Profile::SparseWide]);
     let mut c = cfg_for(profile, rng);
